@@ -350,9 +350,25 @@ pub fn drive_prefix(
     check_100: bool,
     sched: &mut dyn FnMut(usize, usize, usize) -> ReadEv, // (consumed, total, window)
     max_reads: usize,
+    prelude: &[u8],
 ) -> Result<RunInfo, (String, String)> {
-    let mut run = ConnRun::new(stream.to_vec(), limit, check_100);
+    // `prelude` (if any) is a chunk that ends in a parse error; it is delivered in one read of
+    // its own before the stream proper, which must then be handled as by a new connection
+    let mut whole = prelude.to_vec();
+    whole.extend_from_slice(stream);
+    let mut run = ConnRun::new(whole, limit, check_100);
     let mut info = RunInfo::default();
+    let base = prelude.len();
+    if base > 0 {
+        let st = match run.read(ReadEv::Data { want: base, fds: vec![] }) {
+            Ok(s) => s.clone(),
+            Err(m) => return Err(("stream-misuse".into(), m)),
+        };
+        if st.got != base || !matches!(st.res, RRes::Parse(_, _)) {
+            return Err(("harness-prelude".into(), format!("prelude of {} bytes: took {} bytes, result {:?}", base, st.got, st.res)));
+        }
+        info.label("after_a_parse_error");
+    }
     let mut next_req = 0usize; // index into reqs of the next expected delivery
     let mut out_all: Vec<u8> = Vec::new();
     let mut nreads = 0;
@@ -362,9 +378,9 @@ pub fn drive_prefix(
         if run.remaining() == 0 || nreads >= max_reads {
             break;
         }
-        let ev = sched(run.consumed, stream.len(), window);
+        let ev = sched(run.consumed - base, stream.len(), window);
         nreads += 1;
-        let consumed_before = run.consumed;
+        let consumed_before = run.consumed - base;
         let step = match run.read(ev.clone()) {
             Ok(s) => s.clone(),
             Err(m) => return Err(("stream-misuse".into(), m)),
@@ -374,7 +390,7 @@ pub fn drive_prefix(
             return Err(("recv-count".into(), format!("try_read performed {} receives", step.recv_calls)));
         }
         if step.iov_len != 0 {
-            if nreads == 1 && step.iov_len != b_expected {
+            if nreads == 1 && base == 0 && step.iov_len != b_expected {
                 return Err(("harness-window".into(), format!("first receive window {} != expected {}", step.iov_len, b_expected)));
             }
             window = step.iov_len;
@@ -389,7 +405,7 @@ pub fn drive_prefix(
             ReadEv::Eof { .. } => -3,
             ReadEv::Errno(_) => -4,
         });
-        let c = run.consumed;
+        let c = run.consumed - base;
         match &ev {
             ReadEv::Eagain | ReadEv::Eintr | ReadEv::Errno(_) => {
                 let want = match &ev {
